@@ -132,8 +132,8 @@ func main() {
 		CoqBool(lenGuard), CoqBool(denomGuard), CoqBool(amountGuard), CoqBool(evmDenomGuard), CoqBool(erc20NulGuard), CoqBool(supplyGuard))
 	fmt.Printf("Definition current_facts : facts := {|\n  f_funtoken := funtoken_facts;\n  f_wasm := wasm_facts;\n  f_oracle := oracle_facts;\n  f_guards := current_guards;\n")
 	snapEach, maxCalls := snapshotFacts(repo)
-	fmt.Printf("  f_local_meter := %s;\n  f_oog_only := %s;\n  f_addr_conv_total := %s;\n  f_direct_ro := %s;\n  f_call_inherits_static := %s;\n  f_snap_each_call := %s;\n  f_max_calls := %d |}.\n",
-		CoqBool(localMeter), CoqBool(oogOnly), CoqBool(addrConvTotal), CoqBool(g.directRO), CoqBool(g.callInherits), CoqBool(snapEach), maxCalls)
+	fmt.Printf("  f_local_meter := %s;\n  f_oog_only := %s;\n  f_addr_conv_total := %s;\n  f_direct_ro := %s;\n  f_call_inherits_static := %s;\n  f_snap_each_call := %s;\n  f_max_calls := %d;\n  f_revert_decode_total := %s |}.\n",
+		CoqBool(localMeter), CoqBool(oogOnly), CoqBool(addrConvTotal), CoqBool(g.directRO), CoqBool(g.callInherits), CoqBool(snapEach), maxCalls, CoqBool(revertDecodeTotal(repo)))
 	fmt.Printf("(* geth fork %s: read-only argument of RunPrecompiledContract per wrapper; RequiredGas charged before Run *)\n", g.dir)
 	fmt.Printf("Definition geth_readonly_args : list (string * string) := [%s].\n", g.pairs)
 	fmt.Printf("Definition geth_charges_required_gas_first : bool := %s.\n", CoqBool(g.chargesFirst))
@@ -1510,6 +1510,287 @@ func callLimit(fd *ast.FuncDecl, consts map[string]int64) (int64, bool) {
 		}
 	}
 	return 0, false
+}
+
+// ---------------------------------------------------------------- decoding the revert data of a called contract
+
+// revertDecodeTotal: the function of package x/evm that x/evm/keeper applies to the return data of a failed
+// contract call (`evm.F(<resp>.Ret)`; NewRevertError by name when no such call is found) never slices or
+// indexes its []byte parameter beyond a length it has established: every p[i], p[lo:hi], p[lo:] with constant
+// bounds sits behind `len(p) >= n` (an enclosing if / the right side of &&) or after a returning
+// `if len(p) < n { … }`; same-package helpers the slice is handed to are read the same way; library decoders
+// (abi.UnpackRevert …) are trusted.  A bound it cannot evaluate counts as unguarded.
+func revertDecodeTotal(repo string) bool {
+	evmFiles := ParseDir(repo + "/x/evm")
+	funcs := map[string]*ast.FuncDecl{}
+	intC := map[string]int64{}
+	for _, fl := range evmFiles {
+		if strings.HasSuffix(fl.Path, "_test.go") {
+			continue
+		}
+		for _, d := range fl.F.Decls {
+			switch x := d.(type) {
+			case *ast.FuncDecl:
+				if x.Recv == nil {
+					funcs[x.Name.Name] = x
+				}
+			case *ast.GenDecl:
+				collectIntConsts(x, intC)
+			}
+		}
+	}
+	targets := map[string]int{} // function name -> index of the parameter holding the return data
+	for _, fl := range ParseDir(repo + "/x/evm/keeper") {
+		if strings.HasSuffix(fl.Path, "_test.go") {
+			continue
+		}
+		ast.Inspect(fl.F, func(n ast.Node) bool {
+			call, ok := n.(*ast.CallExpr)
+			if !ok {
+				return true
+			}
+			sel, ok := call.Fun.(*ast.SelectorExpr)
+			if !ok || Src(sel.X) != "evm" || funcs[sel.Sel.Name] == nil {
+				return true
+			}
+			for k, a := range call.Args {
+				if as, ok := a.(*ast.SelectorExpr); ok && as.Sel.Name == "Ret" {
+					targets[sel.Sel.Name] = k
+				}
+			}
+			return true
+		})
+	}
+	if len(targets) == 0 && funcs["NewRevertError"] != nil {
+		targets["NewRevertError"] = 0
+	}
+	for name, idx := range targets {
+		if !sliceTotal(funcs[name], idx, funcs, intC, 0) {
+			return false
+		}
+	}
+	return true
+}
+
+type sliceCheck struct {
+	p      string
+	consts map[string]int64
+	funcs  map[string]*ast.FuncDecl
+	depth  int
+	ok     bool
+}
+
+func (c *sliceCheck) lenOf(e ast.Expr) bool { return Nospace(e) == "len("+c.p+")" }
+
+// lower bound on len(p) that holds when cond is true / false
+func (c *sliceCheck) bound(cond ast.Expr, truth bool) int64 {
+	switch x := cond.(type) {
+	case *ast.ParenExpr:
+		return c.bound(x.X, truth)
+	case *ast.UnaryExpr:
+		if x.Op == token.NOT {
+			return c.bound(x.X, !truth)
+		}
+	case *ast.BinaryExpr:
+		if (x.Op == token.LAND && truth) || (x.Op == token.LOR && !truth) {
+			a, b := c.bound(x.X, truth), c.bound(x.Y, truth)
+			if a > b {
+				return a
+			}
+			return b
+		}
+		op, other := x.Op, x.Y
+		switch {
+		case c.lenOf(x.X):
+		case c.lenOf(x.Y):
+			other = x.X
+			switch x.Op {
+			case token.LSS:
+				op = token.GTR
+			case token.LEQ:
+				op = token.GEQ
+			case token.GTR:
+				op = token.LSS
+			case token.GEQ:
+				op = token.LEQ
+			}
+		default:
+			return 0
+		}
+		n, ok := evalInt(other, c.consts)
+		if !ok {
+			return 0
+		}
+		if truth {
+			switch op {
+			case token.GEQ, token.EQL:
+				return n
+			case token.GTR:
+				return n + 1
+			}
+		} else {
+			switch op {
+			case token.LSS:
+				return n
+			case token.LEQ:
+				return n + 1
+			}
+		}
+	}
+	return 0
+}
+
+func max64(a, b int64) int64 {
+	if a > b {
+		return a
+	}
+	return b
+}
+
+func (c *sliceCheck) expr(e ast.Node, g int64) {
+	if e == nil {
+		return
+	}
+	switch x := e.(type) {
+	case *ast.BinaryExpr:
+		if x.Op == token.LAND {
+			c.expr(x.X, g)
+			c.expr(x.Y, max64(g, c.bound(x.X, true)))
+			return
+		}
+		if x.Op == token.LOR {
+			c.expr(x.X, g)
+			c.expr(x.Y, max64(g, c.bound(x.X, false)))
+			return
+		}
+	case *ast.FuncLit:
+		c.block(x.Body.List, 0)
+		return
+	}
+	ast.Inspect(e, func(n ast.Node) bool {
+		switch x := n.(type) {
+		case *ast.BinaryExpr:
+			if (x.Op == token.LAND || x.Op == token.LOR) && ast.Node(x) != e {
+				c.expr(x, g)
+				return false
+			}
+		case *ast.FuncLit:
+			c.expr(x, g)
+			return false
+		case *ast.SliceExpr:
+			if Src(x.X) == c.p {
+				var need int64
+				for _, b := range []ast.Expr{x.Low, x.High, x.Max} {
+					if b == nil || c.lenOf(b) {
+						continue
+					}
+					v, ok := evalInt(b, c.consts)
+					if !ok {
+						c.ok = false
+						continue
+					}
+					need = max64(need, v)
+				}
+				if need > g {
+					c.ok = false
+				}
+			}
+		case *ast.IndexExpr:
+			if Src(x.X) == c.p {
+				v, ok := evalInt(x.Index, c.consts)
+				if !ok || v+1 > g {
+					c.ok = false
+				}
+			}
+		case *ast.CallExpr:
+			// the slice itself handed to a same-package helper
+			if id, ok := x.Fun.(*ast.Ident); ok && c.funcs[id.Name] != nil && c.depth < 3 {
+				for k, a := range x.Args {
+					if Src(a) == c.p && !sliceTotal(c.funcs[id.Name], k, c.funcs, c.consts, c.depth+1) {
+						// the helper may rely on what the caller established: accept it only if it is total by itself
+						c.ok = false
+					}
+				}
+			}
+		}
+		return true
+	})
+}
+
+func terminates(b *ast.BlockStmt) bool {
+	if b == nil || len(b.List) == 0 {
+		return false
+	}
+	switch x := b.List[len(b.List)-1].(type) {
+	case *ast.ReturnStmt:
+		return true
+	case *ast.ExprStmt:
+		if call, ok := x.X.(*ast.CallExpr); ok && Src(call.Fun) == "panic" {
+			return true
+		}
+	}
+	return false
+}
+
+func (c *sliceCheck) block(stmts []ast.Stmt, g int64) {
+	for _, s := range stmts {
+		switch x := s.(type) {
+		case *ast.BlockStmt:
+			c.block(x.List, g)
+		case *ast.IfStmt:
+			if x.Init != nil {
+				c.block([]ast.Stmt{x.Init}, g)
+			}
+			c.expr(x.Cond, g)
+			c.block(x.Body.List, max64(g, c.bound(x.Cond, true)))
+			gElse := max64(g, c.bound(x.Cond, false))
+			switch e := x.Else.(type) {
+			case *ast.BlockStmt:
+				c.block(e.List, gElse)
+			case *ast.IfStmt:
+				c.block([]ast.Stmt{e}, gElse)
+			}
+			if terminates(x.Body) && x.Else == nil {
+				g = gElse
+			}
+		case *ast.ForStmt:
+			c.expr(x.Cond, g)
+			c.block(x.Body.List, g)
+		case *ast.RangeStmt:
+			c.expr(x.X, g)
+			c.block(x.Body.List, g)
+		case *ast.AssignStmt:
+			// the parameter re-assigned: nothing is known about its length any more
+			for _, l := range x.Lhs {
+				if Src(l) == c.p {
+					g = 0
+				}
+			}
+			for _, r := range x.Rhs {
+				c.expr(r, g)
+			}
+		default:
+			c.expr(s, g)
+		}
+	}
+}
+
+func sliceTotal(fd *ast.FuncDecl, paramIdx int, funcs map[string]*ast.FuncDecl, consts map[string]int64, depth int) bool {
+	if fd == nil || fd.Body == nil {
+		return false
+	}
+	ps := flatParams(fd.Type)
+	if paramIdx < 0 || paramIdx >= len(ps) {
+		return false
+	}
+	local := map[string]int64{}
+	for k, v := range consts {
+		local[k] = v
+	}
+	collectIntConsts(fd.Body, local)
+	c := &sliceCheck{p: ps[paramIdx], consts: local, funcs: funcs, depth: depth, ok: true}
+	c.block(fd.Body.List, 0)
+	return c.ok
 }
 
 // ---------------------------------------------------------------- go-ethereum fork
